@@ -190,6 +190,24 @@ def run_rsa(ctx):
                     for k2, kw in ((pub, "public"), (key, "private")):
                         ops.append(("jws.ver", {"jws": tok, "jwk": k2, "all": False, flag: True, "_site": "rsa:modulus",
                                                 "_why": why + " (verify with the %s key, genuine signature)" % kw}))
+    # the same small moduli with leading zero octets in "n" (and in the other members): the *modulus* decides,
+    # not the length of its encoding (a 1024-bit modulus padded to 256 or 512 bytes is still a 1024-bit key)
+    for bits, key in sorted(keys.items(), key=lambda kv: int(kv[0])):
+        nbytes = len(G.b64d(key["n"]))
+        if nbytes >= 256:
+            continue
+        for padto in (256, 257, 512):
+            padded = dict(key, n=G.b64u(b"\0" * (padto - nbytes) + G.b64d(key["n"])))
+            for alg in ("RS256", "PS256", "RS512"):
+                why = "a %s-bit RSA modulus written with %d leading zero octets, %s" % (bits, padto - nbytes, alg)
+                ops.append(("jws.sig", {"jws": {"payload": pay}, "sig": {"protected": {"alg": alg}}, "jwk": padded, "_refuse": True, "_site": "rsa:modulus", "_why": why + " (sign)"}))
+                if alg in DI:
+                    prot = G.enc({"alg": alg})
+                    sg = rs_sign(key, alg, (prot + "." + pay).encode())
+                    if sg is not None:
+                        tok = {"payload": pay, "protected": prot, "signature": G.b64u(sg)}
+                        ops.append(("jws.ver", {"jws": tok, "jwk": K.public(padded), "all": False, "_refuse": True, "_site": "rsa:modulus",
+                                                "_why": why + " (verify, genuine signature)"}))
     real, model = cmp(ctx, ops, mask)
     # whatever jose signs with an admissible key must verify (and tokens it made with small keys do not exist)
     ctx.count("rsa-sizes", len(keys))
